@@ -461,7 +461,15 @@ impl<'a> Gen<'a> {
             let labels: Vec<(usize, String)> = self
                 .gather_labels
                 .iter()
-                .filter(|(k, _)| !prog.knots[*k].body.stmts.iter().any(|s| matches!(s, Stmt::TempDecl(..))))
+                .filter(|(k, path)| {
+                    let has_temps = |b: &Block| b.stmts.iter().any(|s| matches!(s, Stmt::TempDecl(..)));
+                    let parts: Vec<&str> = path.split('.').collect();
+                    if parts.len() == 3 {
+                        !prog.knots[*k].stitches.iter().any(|st| st.name == parts[1] && has_temps(&st.body))
+                    } else {
+                        !has_temps(&prog.knots[*k].body)
+                    }
+                })
                 .cloned()
                 .collect();
             let knot_index: std::collections::HashMap<String, usize> =
